@@ -1,4 +1,5 @@
 """R2: shared per-name vectors are mutated atomically and only for the own file (C09)."""
+import re
 from ..check import Result
 from ..facts import DbInfo, closure_predicate_shape
 from ..core import op_local, place_local
@@ -251,6 +252,8 @@ def r2e_canonical_read_keys(ctx):
                     # parameter of a function nobody in the crate calls (library API / dead code in the binary): the
                     # key is the external caller's, exactly like the keys the handlers pass to the called accessors
                     continue
+                if t[0] == "call" and re.search(r"Iterator>?::next$", t[2] or "") and _iterates_open_documents(ctx.bin, t[1]):
+                    continue  # a key of the map of open documents, stored under the canonical path
                 bad.append("%s %s" % (t[0], (t[2] if t[0] == "call" else t[1]).split("::")[-1] if len(t) > 2 else t[1]))
             key = "R2e|%s|%s.%s" % (op.fn.id, m, op.method)
             if bad:
@@ -313,6 +316,29 @@ def r2g_canonicaliser_whole_path(ctx):
     return r
 
 
+def _iterates_open_documents(crate, fid):
+    """function fid (or the function it is nested in) iterates a concurrent map field of type PathBuf -> Uri (the open documents,
+    keyed by the canonical path the Uri converter produced)"""
+    from ..core import proj_fields, place_projs
+    g = crate.fns.get(fid)
+    if g is None:
+        return False
+    fam = [x for x in crate.real_fns() if x.root == g.root]
+    for x in fam:
+        for _bb, _si, _pl, rv, _sp in x.assigns():
+            if rv[0] != "ref":
+                continue
+            for o, n in proj_fields(place_projs(rv[2])):
+                adt = crate.adts.get(o)
+                if not adt or not adt.get("variants"):
+                    continue
+                for fld in adt["variants"][0]["fields"]:
+                    if fld["name"] == n and re.search(r"DashMap<std::path::PathBuf, [^>]*\bUri\b", fld["ty"]):
+                        if any(re.search(r"DashMap::<[^>]*>::iter$|DashMap::<K, V, S>::iter$", c.get("res") or "") for _b, c in x.calls()):
+                            return True
+    return False
+
+
 def r2h_handlers_pass_canonical_paths(ctx):
     r = Result("R2h", "every path a request handler (a function of the server type, its closures and async blocks) hands to a "
                       "method of the fixture database originates from the Uri-to-path converter (which canonicalises), from a "
@@ -363,6 +389,8 @@ def r2h_handlers_pass_canonical_paths(ctx):
                         continue
                     if t[0] == "closure-param":
                         continue
+                    if t[0] == "call" and re.search(r"Iterator>?::next$", t[2] or "") and _iterates_open_documents(crate, t[1]):
+                        continue  # a key of the map of open documents (path -> Uri), stored there under the canonical path
                     bad.append("%s %s" % (t[0], (t[2] if t[0] == "call" else str(t[1])).split("::")[-1] if len(t) > 2 else t[1]))
                 key = "R2h|%s|%s arg%d" % (f.root, callee.split("::")[-1], i)
                 if bad:
